@@ -109,29 +109,33 @@ type c03Call struct {
 }
 
 type c03World struct {
-	attKinds  [2]string // version 0 / 1
-	propKinds [2]string
-	version   int
-	attF      []c03Fetch
-	propF     []c03Fetch
-	attests   []c03Call
-	proposes  []c03Call
-	prepares  []c03Call
-	startAt   int64 // offset of virtual time 0 from the start of epoch c03Epoch0
-	events    []string
-	reorgAt   int64 // instant of the first event announcing changed roots (-1: none)
-	done      bool
-	jobsAtEnd []string
-	reorgs    []c03Reorg              // head events that announced changed dependent roots
-	fastTrack bool                    // the controller starts a slot's attestations early when the slot's block arrives (vouch's default)
-	evAt      map[phase0.Slot][]int64 // instants at which head events for a slot were delivered
-	attestDur int64                   // how long the attester stand-in takes (0: returns at once)
-	inflight  map[phase0.Slot]int     // attestations being carried out by the stand-in
+	attKinds   [2]string // version 0 / 1
+	propKinds  [2]string
+	version    int
+	attF       []c03Fetch
+	propF      []c03Fetch
+	attests    []c03Call
+	proposes   []c03Call
+	prepares   []c03Call
+	startAt    int64 // offset of virtual time 0 from the start of epoch c03Epoch0
+	events     []string
+	reorgAt    int64 // instant of the first event announcing changed roots (-1: none)
+	done       bool
+	jobsAtEnd  []string
+	reorgs     []c03Reorg              // head events that announced changed dependent roots
+	slowDuties bool                    // after the reorg the beacon node takes two seconds over a duty request; the reorg event arrives one second before the end of its slot
+	fastTrack  bool                    // the controller starts a slot's attestations early when the slot's block arrives (vouch's default)
+	evAt       map[phase0.Slot][]int64 // instants at which head events for a slot were delivered
+	attestDur  int64                   // how long the attester stand-in takes (0: returns at once)
+	inflight   map[phase0.Slot]int     // attestations being carried out by the stand-in
 }
 
 func (w *c03World) now() int64 { return mc.Now() }
 
 func (w *c03World) AttesterDuties(_ context.Context, opts *api.AttesterDutiesOpts) (*api.Response[[]*apiv1.AttesterDuty], error) {
+	if w.slowDuties && w.version == 1 {
+		mc.Sleep(int64(2 * time.Second)) // the answer is given (and logged) two seconds after the request
+	}
 	tab := c03AttTable(w.attKinds[w.version], opts.Epoch)
 	f := c03Fetch{at: w.now(), epoch: opts.Epoch}
 	var out []*apiv1.AttesterDuty
@@ -234,6 +238,19 @@ func c03Units(tier string) []hx.Unit {
 			}
 		}
 	}
+	// a reorg announced one second before the end of a slot, with a beacon node that then takes two seconds over
+	// the duty request: the slot changes while the request is in flight
+	for _, pr := range [][2][2]string{{{"A", "B"}, {"A", "B"}}, {{"E", "C"}, {"A", "C"}}, {{"B", "A"}, {"A", "A"}}, {{"E", "F"}, {"A", "A"}}} {
+		ap, pp := pr[0], pr[1]
+		w := &c03World{}
+		u := hx.Unit{Name: fmt.Sprintf("C03/controller/slow-duties/att%s%s/prop%s%s", ap[0], ap[1], pp[0], pp[1]), Cfg: mc.Config{Deviation: true, Horizon: int64(40 * c03SlotDur)}}
+		u.Body = func() {
+			w.slowDuties = true
+			c03Body(w, 0, ap, pp, false)
+		}
+		u.Check = func(r *mc.Result) mc.Verdict { return c03Check(w, r) }
+		units = append(units, u)
+	}
 	// genesis: the same from the first epoch of a chain (unsigned epoch arithmetic: epoch-1, epoch-2 wrap)
 	for si, st := range starts[:3] {
 		for _, pr := range [][2][2]string{{{"A", "B"}, {"A", "B"}}, {{"E", "C"}, {"A", "C"}}} {
@@ -292,7 +309,8 @@ func c03Units(tier string) []hx.Unit {
 }
 
 func c03Body(w *c03World, startAt int64, ap, pp [2]string, windowed bool) {
-	*w = c03World{attKinds: ap, propKinds: pp, startAt: startAt, reorgAt: -1}
+	slow := w.slowDuties
+	*w = c03World{attKinds: ap, propKinds: pp, startAt: startAt, reorgAt: -1, slowDuties: slow}
 	ctx, cancel := mcontext.WithCancel(context.Background())
 	defer cancel()
 	ct := newChainTime(-(int64(c03Epoch0*c03SPE)*int64(c03SlotDur) + startAt), c03SlotDur, c03SPE)
@@ -371,6 +389,13 @@ func c03Body(w *c03World, startAt int64, ap, pp [2]string, windowed bool) {
 			slotOff = lastSlotOff + mc.Choose(4)
 			secs = []int64{1, 6}[mc.Choose(2)]
 			kind = []string{"same", "prev", "cur", "both"}[mc.Choose(4)]
+		}
+		if w.slowDuties {
+			// the reorg is announced one second before the end of the slot
+			secs = 11
+			if kind == "same" {
+				kind = "prev"
+			}
 		}
 		if c03Epoch0 == 0 {
 			// the duties of the first two epochs depend on the genesis state: a beacon node cannot announce
@@ -676,7 +701,7 @@ func init() {
 	hx.Register(&hx.Prop{
 		ID:    "C03",
 		Title: "Every duty is scheduled once, for the right time, across restarts and reorgs",
-		Rule: "controller part: real controller + real scheduler + real chain time (4 slots per epoch) started at 4 instants of an epoch (epoch start, mid-slot, just inside the second slot, last slot) x 6 attester and 4 proposer duty-table pairs (version before / after a reorg: same, moved, dropped, with out-of-epoch duties, dense) x fast track off / on (vouch's default: a slot's head event starts its attestations 0.5 s later) x head-event scripts (baseline + 1..2 events, each in one of the next 4 slots, 1 s or 6 s into the slot, roots same / previous changed / current changed / both changed), run for three epochs (from epoch 2, and for two table pairs also from epoch 0) on the default schedule (simultaneous timers and events in canonical order); thorough: two further start instants (last second of a slot, last second of the epoch), and every start x table pair once more with a single event announcing changed roots in the next slot, under every schedule with one deviation during start-up and during the handling of that event (mc.SetDeviations confines the bound to those instants: three epochs of controller activity offer thousands of scheduling points); the oracle is computed from the log of the beacon node's answers: per slot at most one Attest / Propose, exactly one with exactly the obtained validators at slot start + delay when the slot was still in the future, none for withdrawn or out-of-epoch duties, nothing for the slot in progress at start-up; after an event announcing a changed previous (current) dependent root the attester duties of the epoch (the proposer duties of the epoch and the attester duties of the next) are obtained again; " +
+		Rule: "controller part: real controller + real scheduler + real chain time (4 slots per epoch) started at 4 instants of an epoch (epoch start, mid-slot, just inside the second slot, last slot) x 6 attester and 4 proposer duty-table pairs (version before / after a reorg: same, moved, dropped, with out-of-epoch duties, dense) x fast track off / on (vouch's default: a slot's head event starts its attestations 0.5 s later) x head-event scripts (baseline + 1..2 events, each in one of the next 4 slots, 1 s or 6 s into the slot, roots same / previous changed / current changed / both changed), run for three epochs (from epoch 2, and for two table pairs also from epoch 0) (also: a reorg announced one second before the end of a slot while the beacon node takes two seconds over the duty request) on the default schedule (simultaneous timers and events in canonical order); thorough: two further start instants (last second of a slot, last second of the epoch), and every start x table pair once more with a single event announcing changed roots in the next slot, under every schedule with one deviation during start-up and during the handling of that event (mc.SetDeviations confines the bound to those instants: three epochs of controller activity offer thousands of scheduling points); the oracle is computed from the log of the beacon node's answers: per slot at most one Attest / Propose, exactly one with exactly the obtained validators at slot start + delay when the slot was still in the future, none for withdrawn or out-of-epoch duties, nothing for the slot in progress at start-up; after an event announcing a changed previous (current) dependent root the attester duties of the epoch (the proposer duties of the epoch and the attester duties of the next) are obtained again; " +
 			"chain-time part: genesis {now, 1 s ago, 1000 h ago, in 30 s} x slot duration {1,2,6,12 s} x slots per epoch {1,2,4,32} x 40 (thorough 130) slots x 4 instants per slot for the conversion identities; sync part: the sync-period window units of C15 (start instants x period length x fork epoch x membership); non-trivial = a reorg happened or vouch started inside an epoch",
 		Assumptions: []string{
 			"vouch keeps no persistent state, so a restart is a start instant",
